@@ -414,6 +414,12 @@ func basePlans(tier string) []mc.Plan {
 				add(cfg, spec{dir: dir, senders: [][]int{{3, 1, 1}}, receivers: 1, halfClose: false, toggle: true}, 0, 1)
 			}
 		}
+		// cold start: the first message races the managers' own start-up
+		for _, cfg := range []wl.Config{{Pipe: tr.Options{Cap: -1}, Cold: true}, {Pipe: tr.Options{Cap: -1}, SplitSize: 2, WriterBuf: 1, Cold: true}} {
+			for _, dir := range []string{"c2s", "s2c"} {
+				add(cfg, spec{dir: dir, senders: [][]int{{1, 3}}, receivers: 1, halfClose: true}, 0, 1)
+			}
+		}
 		// one big message through the default split size and writer buffer
 		add(base, spec{dir: "c2s", senders: [][]int{{70000, 5000}}, receivers: 1, halfClose: true}, 0, 1)
 		add(base, spec{dir: "s2c", senders: [][]int{{70000}}, receivers: 1, halfClose: true}, 0, 1)
